@@ -38,6 +38,18 @@ PROPS = {
                         "whose Unicode/IEEE behaviour is assumed from std; memchr's AVX2 implementation is an external contract."),
         "trusted_base": [VERUS_TRUST, KANI_TRUST, "memchr_rs::memchr/memchr2 behave as documented (external contracts)"],
     },
+    "C07": {
+        "level": "proof",
+        "design_ref": "DESIGN.md section 5, C07",
+        "summary": ("Front-end totality, lexer and diagnostics half: all nine scanning functions of src/syntax/scanner.rs are extracted "
+                    "and verified by Verus against the lexer invariant (position in bounds and on a character boundary) with every "
+                    "emitted diagnostic span, label span and token span required to be inside the text, ordered and on character "
+                    "boundaries; termination of every loop; no recursion; no arithmetic overflow; no out-of-bounds index. "
+                    "Diagnostics line/column index arithmetic likewise."),
+        "not_covered": ("spans fabricated by the parser and resolver (copied/merged from token spans), parser error recovery progress, "
+                        "parser/resolver recursion depth, fmt-based rendering text, arena exhaustion while rendering very many diagnostics."),
+        "trusted_base": [VERUS_TRUST, "three facts about valid UTF-8 (see unit scanner: utf8_ok, first_char, first_char_len)", "memchr_rs::memchr2 behaves as documented"],
+    },
 }
 
 
